@@ -10,5 +10,6 @@ open Emboss.Scalar
 #print axioms C02_le_be_paths_agree
 #print axioms C02_enum_read_unsigned
 #print axioms C02_enum_read_signed_partial
+#print axioms C02_enum_read_signed_actual
 #print axioms C02_read_eq_spec
 #print axioms C02_enum_signed_narrow_counterexample
